@@ -41,4 +41,13 @@ class TheCheck(TreeCheck):
             ops += ["put %s 77" % hexs(rng.choice(ks))]
             ops += ["near %s" % hexs(rng.choice(live + ks[:2]))] + ["next"] * 26
         sts.append(Stream("near-then-walk-epochs", ops, history=True))
+        # deterministic epoch probes: one search+continuation (advances the 8-bit counter once, at its
+        # end) and w complete walks (twice each) bring the counter to every value around the
+        # wrap-around; then a new key, a search and its continuation must visit every key once
+        ops = []
+        for w in range(124, 131):
+            ops += ["new 0", "put 6b31 76", "put 6b33 76", "near 6b31"] + ["next"] * 4
+            ops += ["walk"] * w
+            ops += ["put 6b32 77", "put 6b30 77", "near 6b30"] + ["next"] * 6 + ["near 6b33"] + ["next"] * 6
+        sts.append(Stream("epoch-probes", ops, history=True))
         return sts
